@@ -579,7 +579,7 @@ def run_c10(ctx):
     ctx.build(["yp"])
     def replay():
         g = ctx.tlc("YangTreeGen", "YangTreeGen.cfg", workers=12, timeout=850, heap="10g",
-                    consts={"Size": '"quick"' if q else '"thorough"', "NFam": 24, "NTrees": 0 if q else 1, "NLay": 4 if q else 10},
+                    consts={"Size": '"quick"' if q else '"thorough"', "NFam": 24, "NTrees": 0 if q else 1, "NLay": 3 if q else 10},
                     extra=["-seed", str(ctx.seed)])
         files = vec_files(g["dir"])
         res = ctx.path("res10.ndjson")
